@@ -256,7 +256,7 @@ func stressChild(args []string) {
 		opts = append(opts, taskqueue.RecoveryHandler(handler))
 	}
 	if inCap > 0 {
-		opts = append(opts, taskqueue.VerifInCap(inCap))
+		opts = withInCap(opts, inCap) // black-box build: the capacity New chose
 	}
 	q := taskqueue.New(opts...)
 
